@@ -13,11 +13,14 @@ import (
 	"sync"
 	"sync/atomic"
 	"testing"
+	"time"
 
 	"github.com/aperturerobotics/util/broadcast"
+	"github.com/aperturerobotics/util/ccall"
 	"github.com/aperturerobotics/util/ccontainer"
 	"github.com/aperturerobotics/util/conc"
 	"github.com/aperturerobotics/util/csync"
+	"github.com/aperturerobotics/util/keyed"
 	"github.com/aperturerobotics/util/memo"
 	"github.com/aperturerobotics/util/promise"
 	"github.com/aperturerobotics/util/refcount"
@@ -42,6 +45,19 @@ func genCase(maxOps int) func(t *rapid.T) Case {
 			c.G = append(c.G, rapid.SliceOfN(rapid.IntRange(0, 63), 1, maxOps).Draw(t, "ops"))
 		}
 		return c
+	}
+}
+
+// waitUntil gives the other goroutines the processor until cond holds. It never gives
+// up: no wall-clock limit decides anything here; a condition that never comes true is
+// a stalled case, which the watchdog reports and a fresh process has to reproduce.
+func waitUntil(cond func() bool) {
+	for i := 0; !cond(); i++ {
+		if i < 20000 {
+			runtime.Gosched()
+		} else {
+			time.Sleep(200 * time.Microsecond)
+		}
 	}
 }
 
@@ -204,6 +220,18 @@ func TestC01Free(t *testing.T) {
 						l := sharedW
 						if !write {
 							l = sharedR
+						}
+						if op%7 == 0 {
+							// misuse: Unlock on a Locker value that holds nothing panics and must not
+							// release anybody else's hold
+							func() {
+								defer func() { _ = recover() }()
+								if cs.RW {
+									rw.Locker().Unlock()
+								} else {
+									mu.Locker().Unlock()
+								}
+							}()
 						}
 						l.Lock()
 						enter(write)
@@ -485,7 +513,8 @@ func refcountFree(t *testing.T, prop string) {
 			}
 			root, cancelRoot := context.WithCancel(context.Background())
 			defer cancelRoot()
-			rc := refcount.NewRefCount[int](root, false, nil, nil, resolver)
+			target := ccontainer.NewCContainer(0)
+			rc := refcount.NewRefCount[int](root, false, target, nil, resolver)
 			type view struct {
 				mu       sync.Mutex
 				resolved bool
@@ -596,17 +625,16 @@ func refcountFree(t *testing.T, prop string) {
 			// hand back its stale result: give it the processor until every value has been seen.
 			n := int(nextVal.Load())
 			if n < len(relN) {
-				for spin := 0; spin < 2000000; spin++ {
-					missing := false
+				waitUntil(func() bool {
 					for id := 1; id <= n; id++ {
 						if relN[id].Load() == 0 {
-							missing = true
+							return false // (a value that is never released shows up as a stalled case)
 						}
 					}
-					if !missing && inResolver.Load() == 0 {
-						break
-					}
-					runtime.Gosched()
+					return inResolver.Load() == 0
+				})
+				if tv := target.GetValue(); tv != 0 {
+					f.add("C08", "refcount:released-but-exposed", "after the last reference was released (every value released) the target container still holds value %d", tv)
 				}
 				for id := 1; id <= n; id++ {
 					if c := relN[id].Load(); c != 1 {
@@ -833,6 +861,8 @@ func TestC18Free(t *testing.T) {
 					active.Add(-1)
 				}
 			}
+			var foreignRuns atomic.Int32
+			foreign := func() { foreignRuns.Add(1) }
 			// 0, 500 or 1000 short jobs are handed to the constructor: its workers start
 			// (and finish jobs) while the constructor may still be distributing the rest
 			var initial []func()
@@ -878,6 +908,10 @@ func TestC18Free(t *testing.T) {
 					}
 					enq.Add(int32(n))
 					qd, rn := q.Enqueue(jobs...)
+					// the caller reuses its batch slice as soon as Enqueue has returned
+					for i := range jobs {
+						jobs[i] = foreign
+					}
 					if limit > 0 && (rn > limit || (qd > 0 && rn != limit)) {
 						f.add("C18", "conc:pair-queued-while-free", "Enqueue returned (queued=%d, running=%d) with limit %d", qd, rn, limit)
 					}
@@ -886,23 +920,26 @@ func TestC18Free(t *testing.T) {
 			// every job has run once the harness-side counter says so; the queue must then report
 			// (0, 0) as soon as its workers have done their bookkeeping (no wall clock involved:
 			// the workers get the processor until they have)
-			settled := false
-			for spin := 0; spin < 4000000; spin++ {
-				if total.Load() == enq.Load() {
-					if qd, rn := q.Enqueue(); qd == 0 && rn == 0 {
-						settled = true
-						break
-					}
+			// (counters that never settle, or a job that never runs, show up as a stalled case)
+			waitUntil(func() bool {
+				if foreignRuns.Load() != 0 {
+					return true
 				}
-				runtime.Gosched()
-			}
-			if !settled {
+				if total.Load() < enq.Load() {
+					return false
+				}
 				qd, rn := q.Enqueue()
-				f.add("C18", "conc:counts-never-idle", "all %d jobs have run (%d executions) but the queue keeps reporting (queued=%d, running=%d)", enq.Load(), total.Load(), qd, rn)
+				return qd == 0 && rn == 0
+			})
+			if foreignRuns.Load() != 0 {
+				f.add("C18", "conc:foreign-job-ran", "a function that was never enqueued (the caller wrote it into its batch slice after Enqueue had returned) ran %d times", foreignRuns.Load())
 				return
 			}
 			if err := q.WaitIdle(context.Background(), nil); err != nil {
 				f.add("C18", "conc:waitidle", "WaitIdle returned %v", err)
+			}
+			if n := foreignRuns.Load(); n != 0 {
+				f.add("C18", "conc:foreign-job-ran", "a function that was never enqueued (the caller wrote it into its batch slice after Enqueue had returned) ran %d times", n)
 			}
 			if total.Load() != enq.Load() {
 				f.add("C18", "conc:idle-with-unfinished-job", "WaitIdle returned nil after %d of %d jobs had run", total.Load(), enq.Load())
@@ -914,6 +951,119 @@ func TestC18Free(t *testing.T) {
 				}
 			}
 			mu.Unlock()
+		})
+}
+
+// ---- C07: one instance per key, also when the key is requested from several goroutines at once ----
+
+func TestC07Free(t *testing.T) {
+	drive(t, "C07", "one Keyed with a context; 2..10 goroutines x 1..12 ops {SetKey(k, start), RestartRoutine(k), GetKey(k)} on 1..3 keys with real parallelism and a yielding constructor; keys are never removed, every routine counts itself in and stays until its context is cancelled; oracle: at most one instance per key executes at any time; non-trivial iff >= 2 goroutines; distinct by program", 12,
+		func(cs Case, v *ev.Verdict) {
+			f := &failer{v: v}
+			nkeys := 1 + cs.Objs%3
+			active := make([]atomic.Int32, nkeys)
+			var ctors atomic.Int32
+			k := keyed.NewKeyed(func(key int) (keyed.Routine, int) {
+				ctors.Add(1)
+				runtime.Gosched()
+				return func(ctx context.Context) error {
+					if n := active[key].Add(1); n > 1 {
+						f.add("C07", "keyed:overlap", "%d instances of key %d are executing at once", n, key)
+					}
+					<-ctx.Done()
+					runtime.Gosched()
+					active[key].Add(-1)
+					return ctx.Err()
+				}, key
+			})
+			root, cancel := context.WithCancel(context.Background())
+			defer cancel()
+			k.SetContext(root, false)
+			parallel(len(cs.G), func(g int) {
+				for _, op := range cs.G[g] {
+					key := op % nkeys
+					switch (op / 3) % 4 {
+					case 0, 1:
+						k.SetKey(key, op%2 == 0)
+					case 2:
+						k.RestartRoutine(key)
+					default:
+						k.GetKey(key)
+					}
+				}
+			})
+			k.ClearContext()
+			cancel()
+			// every instance derives from the root context and returns now
+			waitUntil(func() bool {
+				for i := range active {
+					if active[i].Load() != 0 {
+						return false
+					}
+				}
+				return true
+			})
+		})
+}
+
+// ---- C17: the functions handed to CallConcurrently are the ones that run ----
+
+func TestC17Free(t *testing.T) {
+	drive(t, "C17", "CallConcurrently is given a slice of 2..10 functions (fns...) with a context that is already cancelled or cancelled concurrently, so that it may return before its goroutines have started; as soon as it has returned the caller overwrites the slice with another function; oracle: every original function runs exactly once, the other one never; non-trivial iff >= 2 functions; distinct by program", 8,
+		func(cs Case, v *ev.Verdict) {
+			f := &failer{v: v}
+			for _, code := range cs.G[0] {
+				n := len(cs.G)
+				runs := make([]atomic.Int32, n)
+				var foreign atomic.Int32
+				var wg sync.WaitGroup
+				fns := make([]ccall.CallConcurrentlyFunc, n)
+				for i := range fns {
+					wg.Add(1)
+					fns[i] = func(ctx context.Context) error {
+						defer wg.Done()
+						runs[i].Add(1)
+						if (code+i)%3 == 0 {
+							return fmt.Errorf("fn-%d", i)
+						}
+						return nil
+					}
+				}
+				ctx, cancel := context.WithCancel(context.Background())
+				switch code % 3 {
+				case 0:
+					cancel()
+				case 1:
+					go cancel()
+				}
+				_ = ccall.CallConcurrently(ctx, fns...)
+				other := func(context.Context) error { foreign.Add(1); return nil }
+				for i := range fns {
+					fns[i] = other
+				}
+				cancel()
+				// every function that was handed over runs (exactly once), also after an early return
+				done := make(chan struct{})
+				go func() { wg.Wait(); close(done) }()
+				waitUntil(func() bool {
+					select {
+					case <-done:
+						return true
+					default:
+					}
+					return foreign.Load() > 0 // (a function that never runs shows up as a stalled case)
+				})
+				if foreign.Load() > 0 {
+					f.add("C17", "ccall:foreign-function-ran", "a function that was never passed to CallConcurrently (written into the caller's slice after the call had returned) ran %d times", foreign.Load())
+					return
+				}
+				for i := range runs {
+					if r := runs[i].Load(); r != 1 {
+						f.add("C17", "ccall:invocation-count", "function %d of %d ran %d times, want exactly once", i, n, r)
+						return
+					}
+				}
+			}
 		})
 }
 
@@ -972,12 +1122,7 @@ func TestC04Free(t *testing.T) {
 			})
 			sc.ClearContext()
 			cancel()
-			for spin := 0; spin < 4000000 && active.Load() != 0; spin++ {
-				runtime.Gosched()
-			}
-			if n := active.Load(); n != 0 {
-				f.add("C05", "routine:instance-survives-clear", "%d instance(s) still executing after ClearContext and cancelling the root context", n)
-			}
+			waitUntil(func() bool { return active.Load() == 0 })
 		})
 }
 
